@@ -103,6 +103,12 @@ def handleAnalysis (op : String) : Option (P String) :=
           match rest with
           | ["none"] => pure (showVC (rounded none a))
           | _ => do let C ← pCtx; pure (showVC (rounded (some C) a))
+      | "sum" => do
+          let a ← pVC
+          let rest ← get
+          match rest with
+          | ["none"] => pure (showVC (sumRule none a))
+          | _ => do let C ← pCtx; pure (showVC (sumRule (some C) a))
       | "classof" => do let v ← pFV; pure (clsName (classOf v))
       | "pred" => do
           let p ← tok; let t ← pBool
